@@ -141,11 +141,16 @@ def oracle(case):
             bad = "a before hook could not see the chosen endpoint on the request"
         # ... under the documented rule (Request.uri_rule: the route's rule, '/*' for the default, directory and file
         # handler, '/debug-info' for the debug page)
-        want_rule = {"hit": "/hit", "rx": "/rx/<n:int>", "raw": "/raw/(\\w+)", "dbg": "/debug-info", "dbgn": "/debug-info",
+        want_rule = {"hit": "/hit", "rx": "/rx/<n:int>", "raw": "/raw/(?P<w>\\w+)", "dbg": "/debug-info", "dbgn": "/debug-info",
                      "default": "/*", "defn": "/*", "file": "/*", "dir": "/*"}.get(c["route"])
         if not bad and want_rule and seen and any(s[0] != want_rule for s in seen):
             bad = "a before hook saw the rule %r on the request, the chosen endpoint's rule is %r" % (
                 [s[0] for s in seen], want_rule)
+        # ... and what the path gave to the chosen endpoint, by name (the hook may authorise on it)
+        want_args = {"rx": {"n": 12}, "raw": {"w": "ab"}}.get(c["route"])
+        if not bad and want_args is not None and seen and any(s[2] != want_args for s in seen):
+            bad = "a before hook saw the path arguments %r on the request, the chosen endpoint is given %r" % (
+                [s[2] for s in seen], want_args)
     if not bad and outcome[0] != "silent" or (not bad and aev):
         silent_pre = outcome[0] == "silent" and not aev
         if not silent_pre:
